@@ -56,6 +56,54 @@ type C18Contained struct {
 	// Single: the path says `.contained` without an index, which denotes contained[Idx] only
 	// while the list has exactly one entry
 	Single bool `json:"single,omitempty"`
+	// Next: the path goes on into a contained entry of that contained resource (protos allow the
+	// nesting; navigation and the write-back after a patch must cope with it)
+	Next *C18Contained `json:"next,omitempty"`
+}
+
+// innermost returns the last link of the chain.
+func (c *C18Contained) innermost() *C18Contained {
+	for c.Next != nil {
+		c = c.Next
+	}
+	return c
+}
+
+// unpackChain follows the chain of contained entries from res and returns the innermost resource,
+// or an error when the history has diverged from what the generator recorded.
+func unpackChain(res proto.Message, c *C18Contained) (fhir.Resource, error) {
+	cur := res
+	var inner fhir.Resource
+	for ; c != nil; c = c.Next {
+		x, err := unpackContained(cur, c.Idx)
+		if err != nil {
+			return nil, err
+		}
+		if c.Single && containedLen(cur) != 1 {
+			return nil, fmt.Errorf("the un-indexed path no longer denotes a single contained resource")
+		}
+		if string(x.ProtoReflect().Descriptor().Name()) != c.Type {
+			return nil, fmt.Errorf("contained[%d] is a %s, not a %s", c.Idx, x.ProtoReflect().Descriptor().Name(), c.Type)
+		}
+		inner, cur = x, x
+	}
+	return inner, nil
+}
+
+// withChain returns a copy of res in which the innermost resource of the chain is model.
+func withChain(res proto.Message, c *C18Contained, model proto.Message) (proto.Message, error) {
+	if c.Next == nil {
+		return withContained(res, c.Idx, model)
+	}
+	inner, err := unpackContained(res, c.Idx)
+	if err != nil {
+		return nil, err
+	}
+	ni, err := withChain(inner, c.Next, model)
+	if err != nil {
+		return nil, err
+	}
+	return withContained(res, c.Idx, ni)
 }
 
 type C18Client struct {
@@ -388,16 +436,16 @@ func (e *c18Exec) stepOp(r *runCtx, oc *opCtx, in *inputs, res fhir.Resource, ci
 		// the history may have diverged from what the generator expected (an earlier operation
 		// failed or was faulted): the decomposition is only valid if contained[Idx] still is
 		// a resource of the recorded type
-		inner, err := unpackContained(res, cont.Idx)
-		if err == nil && cont.Single && containedLen(res) != 1 {
-			err = fmt.Errorf("the un-indexed path no longer denotes a single contained resource")
-		}
-		if err != nil || string(inner.ProtoReflect().Descriptor().Name()) != cont.Type {
+		inner, err := unpackChain(res, cont)
+		if err != nil {
 			cont = nil
 			st.probe("contained-target-unmodelled")
 		} else {
-			mroot, mpath = inner, cont.Inner
+			mroot, mpath = inner, cont.innermost().Inner
 			st.probe("contained-target")
+			if cont.Next != nil {
+				st.probe("contained-target-nested")
+			}
 		}
 	}
 	if op.BadUTF8 && cont != nil && value != nil {
@@ -533,7 +581,7 @@ func (e *c18Exec) stepOp(r *runCtx, oc *opCtx, in *inputs, res fhir.Resource, ci
 	}
 	var mafter fhir.Resource = res
 	if cont != nil {
-		inner, err := unpackContained(res, cont.Idx)
+		inner, err := unpackChain(res, cont)
 		if err != nil {
 			e.violate("patch-model", "success-mismatch:"+op.Op, ctxt()+"\n  contained entry unreadable after the operation: "+err.Error())
 			return "ok"
@@ -666,7 +714,7 @@ func (e *c18Exec) stepOp(r *runCtx, oc *opCtx, in *inputs, res fhir.Resource, ci
 			e.violate("patch-model", "success-mismatch:"+op.Op, ctxt()+"\n  the contained resource differs from the model's result.\n  actual vs before: "+diffSummary(mbefore, mafter)+"\n  model  vs before: "+diffSummary(mbefore, model))
 			return "ok"
 		}
-		exp, err := withContained(before, cont.Idx, model)
+		exp, err := withChain(before, cont, model)
 		if err != nil {
 			if op.BadUTF8 {
 				e.violate("patch-model", "success-mismatch:"+op.Op, ctxt()+"\n  the operation reported success although the changed contained resource cannot be encoded (the value is not valid UTF-8)")
@@ -772,6 +820,7 @@ func canonAny(m proto.Message) proto.Message {
 		if a, ok := x.Interface().(*anypb.Any); ok {
 			cr := newMessage(findDesc("ContainedResource"))
 			if a.UnmarshalTo(cr.Interface()) == nil {
+				walk(cr) // contained entries of the contained resource
 				if b, err := detMarshal.Marshal(cr.Interface()); err == nil {
 					a.Value = b
 					a.TypeUrl = "type.googleapis.com/" + string(cr.Descriptor().FullName())
